@@ -1,5 +1,6 @@
 SPECIFICATION Spec
 CONSTANT Grid <- GridThorough
+CONSTANT Thetas <- ThetasThorough
 INVARIANT TypeOK
 INVARIANT AltIffThreshold
 INVARIANT RefMaskedIff
